@@ -218,6 +218,24 @@ CHECKS = {
               'toy mechanistic model and Gaussian priors (independent value reference + finite differences).'),
         technique='contract-based deductive verification: symbolic execution of the real class against recording stubs, mechanically differentiated specification',
     ),
+    'C14': dict(
+        category='exploration',
+        text=('Postcondition of ProblemModellingController.get_log_posterior stated against an independent numpy specification assembled from the '
+              'ground truth each dataset is generated from (individuals, per-output (time, value) pairs, dose events with amount / start / '
+              'duration or the bolus default, covariates, population model, fixed parameters, prior): posterior(x) == SPEC(x) at two points, with a '
+              'dosable toy mechanistic model whose outputs depend on every dose event and distinct measured values, so any mis-routed row changes '
+              'the value.  Datasets: pairwise-covered factor levels (1-3 individuals, int / str / float / mixed IDs, six population configurations '
+              'incl. covariate and heterogeneous models, blocked / interleaved rows, renamed or partial output mapping, unrelated rows / columns / '
+              'observables, missing values and times, custom column keys, population model set before or after the data, fixed parameters) and '
+              'random shapes; get_dosing_regimens per individual; the data frame is unchanged; three datasets on the real PKPD model over the '
+              'numeric stand-in solver against a LogLikelihood assembled by hand.'),
+        design_ref='DESIGN.md section 4 (C14)',
+        note=('Bounded stand-in (run-time contract against an independent specification), never counted as proved: the controller is pandas code with no '
+              'contract within reach of the symbolic engine; the routing does not branch on measured values, so one evaluation decides one dataset '
+              'shape, and shapes are enumerated up to the stated bounds (294 quick / 1644 thorough).  One genuine defect of this property was found by the C17 histories and '
+              'repaired (fix commit 216d48d: single-individual datasets with a population model).'),
+        technique='contract-based: postcondition against an independent specification, checked at run time over enumerated dataset shapes (bounded stand-in)',
+    ),
     'C15': dict(
         category='proof',
         text=('Ghost-RNG law algebra on the symbolically executed real sample methods: PredictiveModel.sample[o, u, s] has, for every pair of '
@@ -333,6 +351,7 @@ CHECK_MODULES = {
     'C11': 'contracts.c11',
     'C12': 'contracts.c12',
     'C13': 'contracts.c13',
+    'C14': 'contracts.c14',
     'C15': 'contracts.c15',
     'C16': 'contracts.c16',
     'C17': 'contracts.c17',
